@@ -193,19 +193,22 @@ def r3_segments(ctx):
 
 # ---------------------------------------------------------------------------------------------- evaluation (R0)
 
-LOCALES = ["en", "fr"]            # en is the default locale (no prefix)
+LOCALES = ["en", "fr", "de"]      # en is the default locale (no prefix)
 BASES = {"/": [], "": [], "/foo/": ["foo"], "/foo": ["foo"], "foo": ["foo"], "foo/": ["foo"]}
 # routes: per locale the segments of the route; `:x` parameter, `*x` splat, words are static (localized when they differ)
 ROUTES = [
-    {"en": ["", ":user", ":repo"], "fr": ["", ":user", ":repo"]},          # declared first: must not capture shorter paths
-    {"en": [""], "fr": [""]},
-    {"en": ["", "about"], "fr": ["", "a-propos"]},
-    {"en": ["", "blog", ":id", "edit"], "fr": ["", "blogue", ":id", "modifier"]},
-    {"en": ["", "docs", "*rest"], "fr": ["", "docs", "*rest"]},
-    {"en": ["", "entries"], "fr": ["", "entries"]},                         # starts with the letters of a locale name
-    {"en": ["", "menu", "french-fries", ":n"], "fr": ["", "menu", "frites", ":n"]},
+    {"en": ["", ":user", ":repo"], "fr": ["", ":user", ":repo"], "de": ["", ":user", ":repo"]},          # declared first: must not capture shorter paths
+    {"en": [""], "fr": [""], "de": [""]},
+    {"en": ["", "about"], "fr": ["", "a-propos"], "de": ["", "ueber"]},
+    {"en": ["", "blog", ":id", "edit"], "fr": ["", "blogue", ":id", "modifier"], "de": ["", "blog", ":id", "bearbeiten"]},
+    {"en": ["", "docs", "*rest"], "fr": ["", "docs", "*rest"], "de": ["", "doku", "*rest"]},
+    {"en": ["", "entries"], "fr": ["", "entries"], "de": ["", "entries"]},                         # starts with the letters of a locale name
+    {"en": ["", "menu", "french-fries", ":n"], "fr": ["", "menu", "frites", ":n"], "de": ["", "menu", "pommes", ":n"]},
+    {"en": ["", "news", "?page"], "fr": ["", "nouvelles", "?page"], "de": ["", "neues", "?page"]},       # trailing optional param (present / absent)
+    {"en": ["", "post", "?n", "edit"], "fr": ["", "billet", "?n", "modifier"], "de": ["", "beitrag", "?n", "aendern"]},   # optional param before a static segment
 ]
-PARAMS = {"user": "bob", "repo": "site", "id": "7", "n": "42"}
+OPTIONAL_PRESENT = [False, True]
+PARAMS = {"user": "bob", "repo": "site", "id": "7", "n": "42", "page": "3"}
 SPLATS = [[], ["a"], ["a", "b.html"]]
 
 
@@ -216,13 +219,19 @@ def _seg_value(x):
         return C("Param", S(x[1:]))
     if x.startswith("*"):
         return C("Splat", S(x[1:]))
+    if x.startswith("?"):
+        return C("OptionalParam", S(x[1:]))
     return C("Static", S(x))
 
 
-def _concrete(route_segs, splat):
+def _concrete(route_segs, splat, optional=True):
     out = []
     for x in route_segs:
         if x == "":
+            continue
+        if x.startswith("?"):
+            if optional:
+                out.append(PARAMS[x[1:]])
             continue
         if x.startswith(":"):
             out.append(PARAMS[x[1:]])
@@ -233,8 +242,63 @@ def _concrete(route_segs, splat):
     return out
 
 
-def _url(base_segs, locale, route, splat):
-    segs = list(base_segs) + ([] if locale == "en" else [locale]) + _concrete(route[locale], splat)
+def _ref_match(path, route):
+    """reference matcher written from leptos_router's semantics: the bindings of a route on a path, or None.
+    Statics must be equal, a param takes one segment, an optional param takes one unless the rest needs it, a wildcard takes
+    whatever is left (nothing included)"""
+    if not route:
+        return [] if not path else None
+    x, rest = route[0], route[1:]
+    if x == "":
+        return _ref_match(path, rest)
+    if x.startswith("*"):
+        return [("splat", list(path))]
+    if x.startswith("?"):
+        if path:
+            m = _ref_match(path[1:], rest)
+            if m is not None:
+                return [("seg", path[0])] + m
+        m = _ref_match(path, rest)
+        return None if m is None else [("absent", None)] + m
+    if not path:
+        return None
+    if x.startswith(":"):
+        m = _ref_match(path[1:], rest)
+        return None if m is None else [("seg", path[0])] + m
+    if x != path[0]:
+        return None
+    m = _ref_match(path[1:], rest)
+    return None if m is None else [("static", None)] + m
+
+
+def _ref_localize(path, old_locale, new_locale):
+    """the path in the new locale: the first route (declaration order, as the router picks it) of the old locale's table
+    that serves the path decides; a path no route serves keeps its segments"""
+    for rt in ROUTES:
+        m = _ref_match(path, rt[old_locale])
+        if m is None:
+            continue
+        out = []
+        it = iter(m)
+        for x in rt[new_locale]:
+            if x == "":
+                continue
+            kind, val = next(it)
+            if kind == "static":
+                out.append(x)
+            elif kind == "seg":
+                out.append(val)
+            elif kind == "splat":
+                out.extend(val)
+        return out
+    return list(path)
+
+
+def _url(base_segs, locale, route, splat, explicit_default=False):
+    optional = True
+    if splat and splat[0] == "<no-optional>":
+        optional, splat = False, []
+    segs = list(base_segs) + ([] if locale == "en" and not explicit_default else [locale]) + _concrete(route[locale], splat, optional)
     return "/" + "/".join(segs)
 
 
@@ -273,25 +337,41 @@ def r0_urls(ctx):
         ev.path_builtins = {"L::get_all": lambda a: L(*[S(x) for x in LOCALES]), "L::default": lambda a: S("en")}
         return ev.run_fn(funcs["get_locale_from_path"], [S(path), S(base)])
     bad = {}
-    n_sw = n_rd = 0
+    n_sw = n_rd = n_rt = 0
     for base, bsegs in BASES.items():
         for ri, route in enumerate(ROUTES):
-            splats = SPLATS if any(x.startswith("*") for x in route["en"]) else [[]]
+            splats = SPLATS if any(x.startswith("*") for x in route["en"]) else ([[], ["<no-optional>"]] if any(x.startswith("?") for x in route["en"]) else [[]])
             for splat in splats:
                 for (search, hashv) in (("", ""), ("tab=1&x=%2F", "sec-2")):
-                    for a in LOCALES:
+                    for a in LOCALES + ["en!"]:
+                        # "en!": the default locale written as an explicit prefix (`/en/about`: a URL of the N+1th route
+                        # family, read as Some(en) by get_locale_from_path; hand-typed or shared links look like this)
+                        expl = a == "en!"
+                        a = "en" if expl else a
+                        if expl and (search or splat):
+                            continue
                         for b_ in LOCALES:
-                            src = _url(bsegs, a, route, splat)
-                            want = _url(bsegs, b_, route, splat) + ("?" + search if search else "") + ("#" + hashv if hashv else "")
+                            src = _url(bsegs, a, route, splat, explicit_default=expl)
+                            opt = not (splat and splat[0] == "<no-optional>")
+                            served = _ref_localize(_concrete(route[a], [] if not opt else splat, opt), a, b_)
+                            want = "/" + "/".join(list(bsegs) + ([] if b_ == "en" else [b_]) + served) + ("?" + search if search else "") + ("#" + hashv if hashv else "")
                             got = new_path(src, search, hashv, base, b_, a)
                             if isinstance(got, str):
                                 return r, False, got
                             n_sw += 1
                             if got != S(want):
-                                kind = "base-path" if bsegs and got != S(want) and new_path(_url([], a, route, splat), search, hashv, "/", b_, a) == S(_url([], b_, route, splat) + ("?" + search if search else "") + ("#" + hashv if hashv else "")) else \
+                                kind = "explicit-default-prefix" if expl else "base-path" if bsegs and got != S(want) and new_path(_url([], a, route, splat), search, hashv, "/", b_, a) == S(_url([], b_, route, splat) + ("?" + search if search else "") + ("#" + hashv if hashv else "")) else \
                                     ("query-fragment" if (search or hashv) and new_path(src, "", "", base, b_, a) == S(_url(bsegs, b_, route, splat)) else "rewrite")
                                 bad.setdefault(kind, "base path %r, route %s, %s -> %s: `%s%s%s` becomes `%s`, expected `%s`" % (
                                     base, "/".join(route["en"]) or "/", a, b_, src, "?" + search if search else "", "#" + hashv if hashv else "", absint.fmt(got), want))
+                            elif not expl and not search and base in ("/", "/foo"):
+                                # and back: from the URL just produced (in locale b) to locale a gives the original URL
+                                back = new_path(got[1].split("#")[0].split("?")[0], search, hashv, base, a, b_)
+                                if isinstance(back, str):
+                                    return r, False, back
+                                n_rt += 1
+                                if back != S(src):
+                                    bad.setdefault("round-trip", "base path %r, route %s: `%s` switched %s -> %s gives `%s`, switching back gives `%s`" % (base, "/".join(route["en"]) or "/", src, a, b_, got[1], absint.fmt(back)))
             # reading the locale back from the URL
             for a in LOCALES:
                 src = _url(bsegs, a, route, [])
@@ -317,7 +397,7 @@ def r0_urls(ctx):
         r.viol("R0:get_new_path#" + kind if kind != "read-locale" else "R0:get_locale_from_path#whole-segment", msg, file=F, line=funcs["get_new_path"].line)
     if not bad:
         r.inst("get_new_path", "%d switches (6 base-path forms x %d routes x locale pairs x with/without query+fragment): prefix and localized segments rewritten, everything else kept" % (n_sw, len(ROUTES)))
-        r.inst("round trip", "the expected URL of A->B is the source URL of B->A in the same table: switching back yields the original URL")
+        r.inst("round trip", "%d switches A->B followed by B->A from the URL produced: the original URL comes back (routes served by an earlier, more general route included)" % n_rt)
         r.inst("get_locale_from_path", "%d URLs: a locale is read exactly when the first segment after the base path is a locale name" % n_rd)
     return r, True, None
 
